@@ -577,6 +577,15 @@ class Engine:
     c = self.truthy(st, self.ev(node.test, st))
     if st.spec and not isinstance(c, bool):
       a, b = self.ev(node.body, st), self.ev(node.orelse, st)
+      if a is None and b is None:
+        return None
+      if a is None or b is None:
+        # `None if c else e` / `e if c else None`: an Optional whose payload is e
+        other = b if a is None else a
+        none_when = c if a is None else self.not_(c)
+        if isinstance(other, Opt):
+          return Opt(self.or_(none_when, other.isnone), other.val)
+        return Opt(none_when, other)
       if isinstance(a, Opt) and not isinstance(b, Opt):
         a = self.need_int(st, a)
       if isinstance(b, Opt) and not isinstance(a, Opt):
@@ -1108,6 +1117,8 @@ class Engine:
     st.old = (old_env, old_snap)
     try:
       for cl in (c.caller_ensures if c.caller_ensures is not None else c.ensures + c.defines):
+        if cl.text in c.caller_assumed:
+          self.abstracted.add(f"assumed clause of {c.qual} (not proved from its body): {cl.text}")
         st.assume(self.truthy(st, self.ev(cl.node, st)))
       for gname, expr in c.effects:
         st.ghost[gname] = self.ev(ast.parse(expr, mode="eval").body, st)
@@ -1456,6 +1467,9 @@ class Engine:
     v = self.ev(s.value, st)
     for t in s.targets:
       self.assign(st, t, v)
+      if (isinstance(t, ast.Name) and self.cur is not None and len(st.frames) == 1 and not st.spec
+          and t.id in getattr(self.cur, "on_assign", {})):
+        self.run_ghost(st, self.cur.on_assign[t.id], {}, f"{self.cur.qual}/at-assign:{t.id}@{self.loc(s)}", s.lineno)
 
   def st_AnnAssign(self, s, st):
     if s.value is not None:
@@ -2221,11 +2235,38 @@ class Engine:
     for k in c.loops:
       if k >= len(self.cur_loops):
         return dict(status="missing", reason=f"{c.target}: loop ordinal {k} does not exist")
+    # hook sites must exist: a hook whose site vanished would silently drop its obligations
+    assigned_here = {t.id for nd in ast.walk(fn) if isinstance(nd, ast.Assign) for t in nd.targets if isinstance(t, ast.Name)}
+    for name in getattr(c, "on_assign", {}):
+      if name not in assigned_here:
+        return dict(status="unsupported", reason=f"{c.target}: on_assign site `{name} = ...` not found in the function")
+    # (on_call sites: obligations that are no longer generated are reported through the baseline comparison)
     body = source.strip_docstring(fn.body)
-    pending = [[]]
-    n_paths = 0
     n_before = len(self.obligations)
     covered = set()
+    self.value_pass = False
+    r = self._explore(c, fn, module, body, covered)
+    if r["status"] != "ok":
+      return r
+    n_paths = r["paths"]
+    if getattr(c, "congruence_mod", None) and (c.returns_expr is not None or (c.caller_ensures or [])):
+      # congruence-mode contracts: what CALLERS assume (caller_ensures, returns_expr) is about the real integer values,
+      # so it is proved in a second pass over the unmodified body (no `%` dropped, no ghost coordinates)
+      self.value_pass = True
+      try:
+        r = self._explore(c, fn, module, body, set())
+      finally:
+        self.value_pass = False
+      if r["status"] != "ok":
+        return r
+      n_paths += r["paths"]
+    self.stats["paths"] += n_paths
+    return dict(status="ok", paths=n_paths, obligations=len(self.obligations) - n_before, covered=sorted(covered),
+                gen_time=time.time() - t0)
+
+  def _explore(self, c, fn, module, body, covered):
+    pending = [[]]
+    n_paths = 0
     while pending:
       dec = pending.pop()
       n_paths += 1
@@ -2247,9 +2288,7 @@ class Engine:
         return dict(status="unsupported", reason=f"{c.target}: {e}")
       except Undecidable as e:
         return dict(status="undecidable", reason=f"{c.target}: {e}")
-    self.stats["paths"] += n_paths
-    return dict(status="ok", paths=n_paths, obligations=len(self.obligations) - n_before, covered=sorted(covered),
-                gen_time=time.time() - t0)
+    return dict(status="ok", paths=n_paths)
 
   def setup_entry(self, c, fn, module, st):
     """Binds parameters to fresh symbolic values and assumes `requires`."""
@@ -2289,7 +2328,8 @@ class Engine:
         raise Unsupported(f"parameter {n} has no declared type in the contract")
       env[n] = self.fresh_heap(st, c.params[n], n)
       self.record_input(st, n, env[n])
-    for gname, gt in c.ghost_params.items():
+    vp = getattr(self, "value_pass", False)
+    for gname, gt in ({} if vp else c.ghost_params).items():
       env[gname] = self.fresh_heap(st, gt, gname)
       self.record_input(st, "ghost:" + gname, env[gname])
     fr = Frame(env, None, module, cls=cls, fname=c.qual)
@@ -2300,15 +2340,15 @@ class Engine:
     try:
       for g, expr in c.ghost_init.items():
         st.ghost[g] = self.ev(ast.parse(expr, mode="eval").body, st)
-      for cl in c.requires + c.ghost_requires:
+      for cl in c.requires + ([] if vp else c.ghost_requires):
         st.assume(self.truthy(st, self.ev(cl.node, st)))
-      for cl in c.hints + c.defines:
+      for cl in ([] if vp else c.hints) + c.defines:
         st.assume(self.truthy(st, self.ev(cl.node, st)))
     finally:
       st.spec_depth -= 1
-    if c.entry_ghost:
+    if c.entry_ghost and not vp:
       self.run_ghost(st, c.entry_ghost, {}, f"{c.qual}/entry", 0)
-    if getattr(c, "congruence_mod", None):
+    if getattr(c, "congruence_mod", None) and not vp:
       st.spec_depth += 1
       try:
         st.__dict__["cong_mod"] = to_z3(self.ev(ast.parse(c.congruence_mod, mode="eval").body, st))
@@ -2374,6 +2414,8 @@ class Engine:
     except Raised as r:
       covered.add("raise:" + r.exc)
       line = 0
+      if getattr(self, "value_pass", False):
+        return
       if r.exc in raise_conds:
         self.emit(st, "raise-allowed", f"{c.qual}/raises-{r.exc}-only-when:{c.raises[r.exc].text}", raise_conds[r.exc],
                   clause=c.raises[r.exc].text, props=c.raises[r.exc].props)
@@ -2384,11 +2426,13 @@ class Engine:
                   props=c.total_props if c.total else None, note=r.info)
       return
     covered.add("return")
-    if c.return_hints:
+    vp = getattr(self, "value_pass", False)
+    ring = bool(getattr(c, "congruence_mod", None)) and not vp
+    if c.return_hints and not vp:
       ov = {"result": result}
       self.process_hints(st, c.return_hints, ov, f"{c.qual}/return", 0)
     # normal return: exact raise conditions must be false
-    for exc, cond in raise_conds.items():
+    for exc, cond in ({} if vp else raise_conds).items():
       self.emit(st, "raise-required", f"{c.qual}/returns-only-when-not:{c.raises[exc].text}", self.not_(cond),
                 clause=c.raises[exc].text, props=c.raises[exc].props)
     # postconditions
@@ -2403,12 +2447,24 @@ class Engine:
     st.spec_depth += 1
     st.old = (entry_env, entry_snap)
     try:
-      for cl in c.ensures + c.ghost_ensures:
+      for cl in ([] if vp else c.ensures + c.ghost_ensures):
         if not cl.serves(self.prop):
           continue
         g = self.truthy(st, self.ev(cl.node, st))
         tag = f"[{cl.name}]" if cl.name else ""
         self.emit(st, "post", f"{c.qual}/post{tag}:{cl.text}", g, clause=cl.text, props=cl.props)
+      if c.returns_expr is not None and not ring and c.returns_expr not in c.caller_assumed:
+        # the functional summary used inside comprehensions / quantifiers is proved against the body as well
+        fv = self.ev(ast.parse(c.returns_expr, mode="eval").body, st)
+        self.emit(st, "post", f"{c.qual}/post[functional]:result == {c.returns_expr}",
+                  self.truthy(st, self.eq(st, result_c, fv)), clause=f"result == {c.returns_expr}", props=None)
+      if c.caller_ensures is not None and not ring:
+        own = set() if vp else {cl.text for cl in c.ensures}
+        for cl in c.caller_ensures:
+          if cl.text in own or cl.text in c.caller_assumed or not cl.serves(self.prop):
+            continue
+          g = self.truthy(st, self.ev(cl.node, st))
+          self.emit(st, "post", f"{c.qual}/post[caller-visible]:{cl.text}", g, clause=cl.text, props=cl.props)
     finally:
       st.spec_depth -= 1
       st.frames.pop()
